@@ -83,6 +83,7 @@ int kalign_read_input(char* infile, struct msa** msa, int quiet)
         struct msa* m = NULL;
         int type;
         int i,j;
+        DECLARE_TIMER(timer);
         //ASSERT(infile != NULL,"No input file");
         /* sanity checks  */
         if(infile){
@@ -92,7 +93,6 @@ int kalign_read_input(char* infile, struct msa** msa, int quiet)
         }
 
 
-        DECLARE_TIMER(timer);
         START_TIMER(timer);
 
 
@@ -154,7 +154,6 @@ int kalign_read_input(char* infile, struct msa** msa, int quiet)
                 }
                 GET_TIMING(timer);
         }
-        DESTROY_TIMER(timer);
 
         if(*msa != NULL){
                 RUN(merge_msa(msa, m));
@@ -166,8 +165,10 @@ int kalign_read_input(char* infile, struct msa** msa, int quiet)
         m = NULL;
         /* LOG_MSG("%d " , (*msa)->aligned); */
         RUN(check_for_sequences(*msa));
+        DESTROY_TIMER(timer);
         return OK;
 ERROR:
+        DESTROY_TIMER(timer);
         if(m){
                 kalign_free_msa(m);
         }
